@@ -86,6 +86,24 @@ theorem copyArena_in {h : Heap} (hS : Sep h) (src dst : Region) (base : Nat) :
 
 theorem root_reg (r : Nat) : (root r).reg = .run r := rfl
 
+/-- A formatter that rebuilds every container (`keep = []`, the code as it is) makes a deep copy. -/
+theorem shiftKeep_nil (src dst : Region) (base : Nat) (x : Ref) :
+    shiftKeep [] src dst base x = shiftRef src dst base x := by
+  simp [shiftKeep]
+
+theorem cell_shiftKeep_nil (src dst : Region) (base : Nat) (c : Cell) :
+    Cell.shiftKeep [] src dst base c = Cell.shift src dst base c := by
+  cases c with
+  | leaf v => rfl
+  | list rs => simp [Cell.shiftKeep, Cell.shift, shiftKeep_nil]
+  | dict kvs => simp [Cell.shiftKeep, Cell.shift, shiftKeep_nil]
+
+theorem fmtArena_nil (h : Heap) (src dst : Region) (base : Nat) :
+    fmtArena h [] src dst base = copyArena h src dst base := by
+  simp [fmtArena, copyArena, cell_shiftKeep_nil]
+
+theorem keep_nil {keep : List Nat} (h : keep.isEmpty = true) : keep = [] := List.isEmpty_iff.1 h
+
 theorem updateCopy_local {h : Heap} (hS : Sep h) {r : Nat} {src : Ref} {e : Effect}
     (he : updateCopy h r src = some e) : Local r e := by
   unfold updateCopy at he
@@ -223,6 +241,28 @@ theorem effect_local {h : Heap} (hS : Sep h) {r : Nat} {op : Op} (hf : op.fixed 
         obtain ⟨kv, hkv, rfl⟩ := kvGet?_mem hy
         exact ⟨rfl, cellIn_dict.2 (kvSet_all (P := fun x => x.reg = .run r) hk (hk kv hkv))⟩
       · cases he
+    · cases he
+  | fmtSetAt p k src keep =>
+    have hk : keep = [] := keep_nil (by simpa only [Op.fixed] using hf)
+    subst hk
+    simp only [effect, fmtArena_nil, shiftKeep_nil] at he
+    split at he
+    · split at he
+      · cases he
+      · rename_i x hx
+        split at he
+        · rename_i kvs hc
+          simp only [Option.some.injEq] at he
+          subst he
+          have hxr : x.reg = .run r := resolve_reg hS hx
+          refine ⟨copyArena_in hS _ _ _, ?_⟩
+          intro y c hw
+          simp only [Option.some.injEq, Prod.mk.injEq] at hw
+          obtain ⟨rfl, rfl⟩ := hw
+          refine ⟨hxr, cellIn_dict.2 (kvSet_all (P := fun x => x.reg = .run r) ?_ ?_)⟩
+          · rw [← hxr]; exact cellIn_dict.1 (hS.get hc)
+          · rw [shiftRef_reg rfl]
+        · cases he
     · cases he
 
 /-! ### applying a local effect -/
